@@ -168,6 +168,7 @@ def run_faults(c, part, out, which):
 def copying_calls(u):
     """(name, callable(a, b)) -- documented to return new objects; a, b are Operands of the same unit"""
     import unyt
+    import unyt.testing  # noqa: F401
     from unyt import Unit, unyt_quantity
 
     other = {"km": "m", "m": "km", "cm": "inch", "g": "kg", "mile/hr": "m/s", "N*m": "erg", "kg*m**2/s**2": "eV", "degC": "degF", "K": "R", "keV": "J",
@@ -204,6 +205,9 @@ def copying_calls(u):
         ("in_units(Unit of another registry)", lambda a, b: a.q.in_units(_guard_unit(other))), ("to_value(Unit of another registry)", lambda a, b: a.q.to_value(_guard_unit(other))),
         ("a+b(other registry)", lambda a, b: a.q + (b.q.v * _guard_unit(u)) if not a.q.units.base_offset else None),
         ("to(equal-scale spelling)", lambda a, b: a.q.to({"N*m": "J", "kg*m**2/s**2": "J", "Hz*s*km": "km", "m*s/s": "m", "keV": "1000*eV"}.get(u, u))),
+        ("allclose_units(atol=quantity in another unit)", lambda a, b: unyt.array.allclose_units(a.q.to(other), a.q.to(other), rtol=1e-7, atol=abs(b.q))),
+        ("assert_allclose_units(atol=quantity in another unit)", lambda a, b: unyt.testing.assert_allclose_units(a.q.to(other), a.q.to(other), rtol=1e-7, atol=abs(b.q) if b.q.ndim == 0 else b.q)),
+        ("allclose_units(rtol=quantity)", lambda a, b: unyt.array.allclose_units(a.q, a.q, rtol=(b.q / b.q) * 1e-7 if False else unyt_quantity(1e-5, "percent"), atol=b.q)),
         ("in_units(same)", lambda a, b: a.q.in_units(u)), ("in_base(own system)", lambda a, b: a.q.in_base("mks").in_base("mks")),
     ]
     # equivalence routes: copying forms after which the *input* must be intact
